@@ -1183,11 +1183,13 @@ func (x *Exec) dispatch(st *Step, ev Ev) {
 		ev["res"] = b2i(eq)
 	case "Rebuild":
 		x.rebuild(st, ev)
+	case "CsvScan":
+		x.csvScan(st, ev)
 	case "ToSQL", "ReadSQL":
 		x.sqlOps(st, ev)
 	case "FloatFmt", "FloatJSON":
 		x.floatOps(st, ev)
-	case "ToCSV", "ToJSON", "String", "ReadCSV", "ReadJSON", "CsvScan", "Scribble", "View":
+	case "ToCSV", "ToJSON", "String", "ReadCSV", "ReadJSON", "Scribble", "View":
 		x.dispatchIO(st, ev)
 	case "SliceObs":
 		// subsequent observations use View.Slice() instead of View.ItemAt(i)
